@@ -176,6 +176,15 @@ def recount_runner_context(c, strategy, market, tag="ctx"):
         c.ob("%s.trade-completes-at-most-once" % tag, n_complete <= max(1, len(placed)), completions=n_complete, placed=len(placed))
 
 
+def views_sig(b):
+    """every internal index of a blotter as comparable data (object identities, order preserved)"""
+    def ids(d):
+        return sorted((repr(k) if not isinstance(k, tuple) else repr(tuple(repr(x) for x in k)), [id(o) for o in v]) for k, v in list(d.items()) if v)
+    return dict(orders=sorted(b._orders), live=[id(o) for o in b._live_orders], strategy=ids(b._strategy_orders),
+                strategy_selection=ids(b._strategy_selection_orders), client=ids(b._client_orders), client_strategy=ids(b._client_strategy_orders),
+                trades=ids(b._trades), bet_ids=sorted((str(k), id(v)) for k, v in b._bet_id_lookup.items()), trade_lookup=sorted(b._trade_lookup))
+
+
 def blotter_coherence(c, market, placed, tag="blotter"):
     """C15: every placed order exactly once in the blotter and in every view; live list = orders not complete (+ complete
     ones not yet swept)"""
